@@ -106,6 +106,37 @@ def run(ctx, replay_case):
     for args in (["convert", "--in", "binary", "--type", "TPM2B_DIGES", anyfile], ["convert", "--in", "binary", "--type", "Response", anyfile],
                  ["convert", "--in", "binary", "--type", "Response", "--command", "GetRandm", anyfile], ["example", "GetRandm"]):
         jobs.append(("refuse", args, None))
+    # the argument grid: every combination of --in / --type / --command (/ --out) on small fixed files, so that the dispatch
+    # logic is covered exhaustively over this small world (model PLAN vs the real command line vs the stated behaviour)
+    gpair = None
+    for _ in range(50):
+        gpair = M.pair(dict(L["cc"])["GetRandom"])
+        if gpair and gpair[1][2].get("rc", 0) == 0 and not gpair[0][2]["nsess"]:
+            break
+    gfiles = {}
+    if gpair:
+        dg = M.G.gen(L["consts"]["TPM2B_DIGEST"]) if "TPM2B_DIGEST" in L["consts"] else None
+        contents = {"Stream": gpair[0][1] + gpair[1][1], "Command": gpair[0][1], "Response": gpair[1][1],
+                    "TPM2B_DIGEST": dg[1] if dg else b"\x00\x00"}
+        for k, v in contents.items():
+            for enc in ("binary", "hex"):
+                pth = os.path.join(tmp, f"grid_{k}_{enc}.bin")
+                with open(pth, "wb") as f:
+                    f.write(v if enc == "binary" else v.hex().encode())
+                gfiles[(k, enc)] = (pth, v if enc == "binary" else v.hex().encode(), v)
+    gjobs = []
+    outs_ = ["events"] if ctx.tier == "quick" else ["events", "pretty", "binary"]
+    for fin in (None, "auto", "binary", "hex"):
+        for typ in (None, "CommandResponseStream", "Command", "Response", "TPM2B_DIGEST", "TPM2B_DIGES"):
+            for cmd in (None, "GetRandom", "GetRandm"):
+                for fo in outs_:
+                    if not gfiles:
+                        continue
+                    kind_ = "Stream" if typ in (None, "CommandResponseStream") else (typ if typ in ("Command", "Response") else "TPM2B_DIGEST")
+                    pth, cont, data = gfiles[(kind_, "hex" if fin == "hex" else "binary")]
+                    args = ["convert"] + (["--in", fin] if fin else []) + ["--out", fo] + (["--type", typ] if typ else []) + \
+                           (["--command", cmd] if cmd else []) + [pth]
+                    gjobs.append((args, fin or "auto", typ, cmd, fo, kind_, cont, data))
     # type
     tjobs = []
     for i in range(12 if ctx.tier == "quick" else 80):
@@ -131,6 +162,7 @@ def run(ctx, replay_case):
         return cli(job[1])
     with ThreadPoolExecutor(16) as ex:
         results = list(ex.map(do, jobs))
+        gres = list(ex.map(lambda gj: cli(gj[0]), gjobs))
         tres = list(ex.map(lambda tj: cli(["type", "--in", "binary", tj[0]]), tjobs))
         eres = list(ex.map(lambda n: cli(["example", n], timeout=1200), ex_names))
     stats = collections.Counter()
@@ -180,6 +212,37 @@ def run(ctx, replay_case):
             if digits != (u if u != "-" else ""):
                 viol("cli:binary", "`--out binary` does not print the hex of every decoded byte in order",
                      {"argv": args, "file_hex": cont.hex(), "stdout": digits[:200], "expected": u[:200]})
+    # the argument grid
+    gplans = core.run_model([f"PLAN {g[1]} {g[2] or '-'} {g[3] or '-'}" for g in gjobs]) if gjobs else []
+    getrandom = dict(L["cc"])["GetRandom"]
+    for g, (rc, out, err), pl in zip(gjobs, gres, gplans):
+        args, fin, typ, cmd, fo, kind_, cont, data = g
+        stats["grid"] += 1
+        plan = pl[0]
+        refused_ok = rc != 0 and ("Did you mean" in err or "requires" in err) and "Traceback" not in err
+        # what the statement says
+        if typ in (None, "CommandResponseStream"):
+            stated = "run"
+        elif typ == "TPM2B_DIGES" or (typ == "Response" and cmd != "GetRandom"):
+            stated = "refuse"
+        elif fin == "auto":
+            stated = None        # a custom type with auto-detection: not covered by the statement (the code raises RuntimeError)
+        else:
+            stated = "run"
+        lib, lib_exc = library_lines(fin, fo, kind_ if stated == "run" or plan.startswith("L run") else "Stream",
+                                     getrandom if kind_ == "Response" else None, cont) if (stated == "run" or plan.startswith("L run")) else ("", None)
+        ran_ok = rc == 0 and lib_exc is None and ANSI.sub("", out).rstrip("\n") == lib.rstrip("\n")
+        observed = "refused" if refused_ok else ("run" if ran_ok else f"status {rc}" + (" RuntimeError" if "RuntimeError" in err else ""))
+        if stated == "refuse" and not refused_ok:
+            viol("cli:grid:refuse", f"`tpmstream {' '.join(args[:-1])} <file>` is not refused with a non-zero status and a suggestion ({observed})",
+                 {"argv": args, "status": rc, "stderr": err[-300:]})
+        if stated == "run" and not ran_ok:
+            viol("cli:grid:run", f"`tpmstream {' '.join(args[:-1])} <file>` does not print what the library produces and exit 0 ({observed})",
+                 {"argv": args, "file_hex": cont.hex(), "status": rc, "stdout_head": out[:200], "library_head": lib[:200], "stderr": err[-300:]})
+        model_obs = {"L refused": "refused"}.get(plan, "run" if plan.startswith("L run") else "status 1 RuntimeError")
+        if model_obs != observed and not (plan.startswith("L crashed") and rc != 0 and "RuntimeError" in err):
+            ctx.violations.append({"kind": "correspondence", "what": "CLI dispatch model disagrees with the command line",
+                                   "replay": {"argv": args, "model": plan, "status": rc, "observed": observed}})
     # type: exactly the types under which the bytes decode strictly
     tmodel = core.run_model([f"TYPES {d.hex() or '-'}" for _, d in tjobs])
     for (path, data), (rc, out, err), tm in zip(tjobs, tres, tmodel):
@@ -236,13 +299,14 @@ def run(ctx, replay_case):
                 break
     subprocess.run(["rm", "-rf", tmp])
     ctx.stats.update({
-        "evaluations": len(jobs) + len(tjobs) + len(ex_names), "distinct_nontrivial": len({tuple(j[1][:-1]) + (j[2][4] if j[2] else b"",) for j in jobs}),
+        "evaluations": len(jobs) + len(gjobs) + len(tjobs) + len(ex_names), "distinct_nontrivial": len({tuple(j[1][:-1]) + (j[2][4] if j[2] else b"",) for j in jobs}),
         "rule": "the real command line run as a subprocess on generated files: convert over input formats {binary, hex, swtpm-log, pcapng, auto} x output "
                 "formats {pretty, events, binary} x {stream, --type Command, --type Response --command X}, well-formed and corrupted; stdout (colour stripped) and "
-                "status compared with the library on the same bytes; --out binary compared with the decoded bytes; refusals; `type` compared with strict library "
+                "status compared with the library on the same bytes; the full argument grid {--in absent, auto, binary, hex} x {--type absent, CommandResponseStream, "
+                "Command, Response, a structure, an unknown name} x {--command absent, known, unknown} on fixed small files: dispatch model vs command line vs statement; --out binary compared with the decoded bytes; refusals; `type` compared with strict library "
                 "decodes under every type and command code and with the Lean listing; `example X` headers/commands/re-decode",
         "samples": [{"argv": j[1][:-1]} for j in jobs[:: max(1, len(jobs) // 5)]][:5],
-        "correspondence": {"subprocess_calls": len(jobs) + len(tjobs) + len(ex_names)},
+        "correspondence": {"subprocess_calls": len(jobs) + len(gjobs) + len(tjobs) + len(ex_names), "argument_grid": len(gjobs)},
         "distribution": dict(stats),
     })
 
